@@ -178,7 +178,7 @@ class Cw(Engine):
                 yield Case(f'lastblk-{bpb}-{bil}-{r}', ops, {'fmt': 'raw', 'bpb': bpb, 'bil': bil, 'kind': 'all', 'filter': '-', 'total': total})
         # 1c. the library's own sinks (open_fd / open_filename / open_FILE) over a scripted write(2) / fwrite:
         #     short counts, EINTR, errors, zero returns
-        ns = 90 if tier == 'quick' else 1200
+        ns = 90 if tier == 'quick' else 800
         for i in range(ns):
             sink = ['openfd', 'openfile', 'openFILE'][i % 3]
             fmt = rng.choice(['raw', 'raw', 'ustar'])
